@@ -204,17 +204,17 @@ impl Property for P {
         ]
     }
     fn gen(r: &mut Rng) -> Vec<Op> {
-        let n = 2 + r.below(30);
-        // burst: many requests in flight and long runs of responses, so that many acknowledgements wait at once
+        // burst: many requests in flight, then long runs of responses, so that many acknowledgements wait at once
         let burst = r.chance(1, 4);
-        let maxin = if burst { 14 } else { 5 };
+        let n = if burst { 24 + r.below(26) } else { 2 + r.below(30) };
+        let maxin = if burst { 9 + r.below(6) as u32 } else { 5 };
         let mut ops = Vec::new();
         let mut infl = 0u32;
         let mut seq = [1u32; 3];
         let mut starting = true;
         for _ in 0..n {
             let c = r.below(10);
-            if burst { if infl == 0 { starting = true; } else if infl >= maxin || r.chance(1, 8) { starting = false; } }
+            if burst { if infl == 0 { starting = true; } else if infl >= maxin { starting = false; } }
             if r.chance(1, 9) {
                 let sub = 1 + r.below(3) as u32;
                 ops.push(match r.below(6) { 0 | 1 => Op::SubAdd(sub), 2 | 3 => Op::SubDel(sub), 4 => Op::SubMod(sub), _ => Op::SubPub(sub) });
